@@ -65,7 +65,7 @@ CLAIMED = {
   technique="Lean 4 proof (Joseph form, Mathlib PosDef) + differential correspondence",
   design="5 C05"),
  "C06": dict(
-  text="Lean 4 theorems (FormakVerif.C06: sqrt_free, discard_iff, disabled_never, discard_identity, decision, nis_nonneg, same_decision, zero_never_discarded, exact_reading_is_used) prove that the "
+  text="Lean 4 theorems (FormakVerif.C06: sqrt_free, discard_iff, disabled_never, discard_identity, decision, nis_nonneg, same_decision, zero_never_discarded, exact_reading_is_used, discard_mono_nis, discard_antitone_threshold, at_most_dof_never) prove that the "
        "model's square-root-free rational test is exactly NIS > k*sqrt(2m)+m over the reals for every k >= 0 and m, that disabled never discards, "
        "that a discard returns state and covariance unchanged with the innovation recorded, that a reading exactly equal to the prediction is used (never discarded, covariance still updated), and that the Python, C++-helper and generated-C++ "
        "decision shapes coincide. Tie: remove_innovation, removeInnovation<m> (compiled from the working tree against the Eigen stand-in) and "
